@@ -1,7 +1,7 @@
 (* Store/Props_C07.v — pinned statements for C07 (the store wrappers behave as a conforming object
    store with real compare-and-swap).  Operation step lists come from coq/gen/Gen_Flush.v. *)
 From Coq Require Import List String NArith ZArith Bool Arith.
-From Verif Require Import Common.ObjStore Common.CommitPoint Store.Model Store.Crash Store.Cas Store.GetOpts Store.Cache gen.Gen_Flush.
+From Verif Require Import Common.ObjStore Common.CommitPoint Store.Model Store.Crash Store.Cas Store.GetOpts Store.Cache Store.CondRead gen.Gen_Flush.
 Import ListNotations.
 Open Scope list_scope.
 Open Scope string_scope.
@@ -26,7 +26,12 @@ Theorem C07_generated_facts :
   etag_condition_clears_date = true /\ date_comparisons_as_modelled = true /\
   validate_ranges_order = ["start>=len"; "end<=start"; "end>len"] /\
   etag_seeded_by_commit_id = true /\
-  listing_inserts_cache = false /\ loads_in_key_section = true.
+  listing_inserts_cache = false /\ loads_in_key_section = true /\
+  (* get_opts: the read preconditions are evaluated in every iteration of the stale-pointer retry loop, on the
+     document that iteration resolved; nothing is resolved or checked before the loop *)
+  meta_get_opts_order = ["LOOP"; "RESOLVE"; "CHECK"; "FETCH"; "REFRESH"] /\
+  enc_get_opts_order = ["LOOP"; "RESOLVE"; "CHECK"; "FETCH"; "REFRESH"] /\
+  meta_get_check_in_retry_loop = true /\ enc_get_check_in_retry_loop = true.
 Proof. repeat split; try reflexivity. repeat constructor. Qed.
 Print Assumptions C07_generated_facts.
 
@@ -133,6 +138,34 @@ Example C07_cache_nonvacuous :
                  [CListFetch; CLAcquire; CLLoad; CLRelease true; CWAcquire; CWPut; CWRelease false; CListFinish 0;
                   CEvict; CLAcquire; CLLoad; CLRelease false] = Some s /\ cache s = Some 1%nat /\ acked s = 1%nat.
 Proof. eexists. split; [vm_compute; reflexivity|]. split; reflexivity. Qed.
+
+(* (3c) a conditional read racing with commits of its key is answered against ONE commit: for every
+   options, every pair of commits the two resolutions may see and every payload availability, served
+   bytes belong to a resolved commit on which the reference check_preconditions passes, and a refusal is
+   the reference's verdict on a resolved commit — with the placement of the check extracted from get_opts
+   of both wrappers *)
+Theorem C07_conditional_read_one_commit :
+  forall (enc : bool) (o : gopts) (e : env),
+    match cond_read (if enc then enc_get_check_in_retry_loop else meta_get_check_in_retry_loop) o e with
+    | AServed c => resolved e c /\ ref_check o (c_tag c) (c_lm c) = POk
+    | APre r => r <> POk /\ exists c, resolved e c /\ ref_check o (c_tag c) (c_lm c) = r
+    | ANotFound => True
+    end.
+Proof. intros [|] o e; apply cond_read_one_commit. Qed.
+Print Assumptions C07_conditional_read_one_commit.
+
+(* evaluating the preconditions once, before the retry loop, is refuted: a read conditioned on the token
+   of the commit it resolved first serves the bytes of the commit that replaced it *)
+Theorem C07_conditional_read_check_once_refuted :
+  exists o e c, cond_read false o e = AServed c /\ ref_check o (c_tag c) (c_lm c) = PPrecondition /\
+                first_doc e <> Some c.
+Proof. exact cond_read_check_once_refuted. Qed.
+Print Assumptions C07_conditional_read_check_once_refuted.
+
+Example C07_conditional_read_nonvacuous :
+  cond_read true witness_opts witness_env = APre PPrecondition /\
+  cond_read true (mkG None (Some (TList [3%Z])) None None) witness_env = AServed (mkCommit 2 20 200).
+Proof. split; reflexivity. Qed.
 
 (* (4) read preconditions: the wrapper answers exactly what the reference GetOptions::check_preconditions
    answers for the logical (e_tag, last_modified), consumes every condition it answered, and keeps the
